@@ -257,8 +257,20 @@ def hashref_objs(ctx):
     return objs
 
 
+def generic_endian_build(ctx):
+    """The hash's byte-order conversion path (`#if !defined(LW_UTIL_LITTLE_ENDIAN)`, normally compiled only on
+    big-endian hosts) compiled and run on this host: the conversions are identities here, so every digest must be
+    unchanged.  No big-endian machine or emulator exists in the sandbox; this at least executes that code."""
+    pre = os.path.join(ctx.scratch, "generic_endian.h")
+    if not os.path.exists(pre):
+        with open(pre, "w") as f:
+            f.write('#include "backend/tinyjambu-util.h"\n#undef LW_UTIL_LITTLE_ENDIAN\n')
+    return {"tag": "gcc-O2-generic-endian-path", "lib": ctx.lib("gcc-O2-generic-endian-path", "gcc", ["-O2"], pre_include=pre), "cc": "gcc", "hflags": []}
+
+
 def run_hash(ctx, builds, args, nb, hname, timeout=1800):
     refs = hashref_objs(ctx)
+    builds = list(builds) + [generic_endian_build(ctx)]
     jobs = []
     for b in builds:
         use_ref = refs and not b["hflags"]      # uninstrumented reference objects only in uninstrumented harnesses
